@@ -158,6 +158,10 @@ Clauses(st, e) ==
         (e.ev = "InputSetRaise" /\ st.op \in BoolOps) => FALSE>>,
      <<"C15_CompletionUndisturbed",
         (e.ev = "InputSetRaise" /\ st.op \in ZipOps) => FALSE>>,
+     <<"C14_CompletionReturns",       \* ... and returns: no thread is left waiting for a lock when everything is over
+        (e.ev = "BlockedAtEnd" /\ st.op \in BoolOps) => e.s # "acquire">>,
+     <<"C15_CompletionReturns",
+        (e.ev = "BlockedAtEnd" /\ st.op \in ZipOps) => e.s # "acquire">>,
      <<"C14_Fold",
         AtEnd(st, e, BoolOps) => (Waived(st) \/ ObservedOutcome(st) \in Expected(st))>>,
      <<"C14_LosersCancelled",
